@@ -85,6 +85,10 @@ func c15Check(a *ChildArgs, idPrefix, kind string, x gen.X, p *gen.Placement, se
 		tree, err := gosqlx.Parse(sql)
 		if err != nil {
 			a.Rec.Count("rejected_skipped", 1)
+			if idPrefix == "C15/fixed" {
+				// a hand-written statement the parser does not take decides nothing: say so instead of passing silently
+				a.Rec.Inconclusive("C15/fixed/"+kind+"/rejected", "the hand-written statement is not accepted: "+firstLine(err.Error()))
+			}
 			return
 		}
 		md := gosqlx.ExtractMetadata(tree)
@@ -210,7 +214,7 @@ func c15Child(a *ChildArgs) {
 			{"lower-case-niladic", "select current_date , Current_Timestamp , localtime , a from t where b < session_user", []string{"t"}, []string{"a", "b"}, nil},
 			{"array-constructor", "SELECT ARRAY [ 1 , f ( a ) , ( SELECT z FROM q ) ] FROM t", []string{"t", "q"}, []string{"a", "z"}, []string{"f"}},
 			// names with three, four and five parts: the qualifiers are part of the name in every variant
-			{"many-part-names", "SELECT a FROM srv.db.sch.orders JOIN east.crm.dbo.customers ON a = b , west.crm.dbo.customers , db.sch.t3 WHERE c IN ( SELECT d FROM n1.n2.n3.n4.deep )",
+			{"many-part-names", "SELECT a FROM srv.db.sch.orders , west.crm.dbo.customers , db.sch.t3 JOIN east.crm.dbo.customers ON a = b WHERE c IN ( SELECT d FROM n1.n2.n3.n4.deep )",
 				[]string{"srv.db.sch.orders", "east.crm.dbo.customers", "west.crm.dbo.customers", "db.sch.t3", "n1.n2.n3.n4.deep"}, []string{"a", "b", "c", "d"}, nil},
 			// comma-separated FROM lists of plain tables, at the top and inside a sub-query and a CTE
 			{"from-comma-lists", "WITH w AS ( SELECT x FROM p1 , p2 , p3 ) SELECT a FROM t1 , t2 , w WHERE b IN ( SELECT c FROM u1 , u2 )", []string{"p1", "p2", "p3", "t1", "t2", "w", "u1", "u2"}, []string{"x", "a", "b", "c"}, nil},
